@@ -322,6 +322,8 @@ def make_leaf(ctx, dom, ran, want=None):
             kinds = [k for k in kinds if k not in ('ip', 'nquad')]
         if want == 'lin':
             kinds = ['flin', 'ip']
+        if want in ('ip', 'nquad', 'fquad', 'flin'):
+            kinds = [want]
         k = r.choice(kinds)
         if k == 'l2sq' and ctx.cplx:
             k = 'fquad'
@@ -1057,6 +1059,11 @@ def correspondence(rng, tier):
                     t2 = thaw(c2, freeze(t))
                     term, desc, key = run_case(c2, t2, npts=1)
                     cset.add(term, desc, key)
+    ctx0 = Ctx(rng, False)
+    for t in _reflected_trees(ctx0):
+        c2 = Ctx(rng, False)
+        term, desc, key = run_case(c2, thaw(c2, freeze(t)), npts=1)
+        cs.add(term, desc, key)
     # memory-contract patterns on every space kind (leaves that are not alias-safe / alias their input)
     for cplx, cset in ((False, cs),):
         for kind in ('rn', 'discr', 'wrn'):
@@ -1304,6 +1311,30 @@ def _fixed_trees(ctx):
     return out
 
 
+def _reflected_trees(ctx):
+    """Left operand of an Operator* class, right operand of its Functional* subclass: Python runs the
+    right operand's reflected __radd__ / __rmul__ FIRST (sum: operands swapped; product: same TypeError)."""
+    L = lambda d, r, w=None: ('leaf', make_leaf(ctx, d, r, w))
+    a, b = ctx.num(small=True), ctx.num(small=True)
+    v = ctx.ivec(2)
+    ip, f, M = L(2, 'F', 'ip'), L(2, 'F', 'func'), L(2, 2)
+    nq = L(2, 'F', 'nquad')
+    pairs = [(('add', ip, L(2, 'F', 'ip')), ('add', f, L(2, 'F', 'func'))),          # OperatorSum / FunctionalSum
+             (('add', ip, nq), ('addc', f, a)),                                        # OperatorSum / FunctionalScalarSum
+             (('mul', ip, M), ('mul', f, L(2, 2))),                                    # OperatorComp / FunctionalComp
+             (('cmul', nq, a), ('cmul', f, b)),                                        # LeftScalarMult
+             (('mulc', nq, a), ('mulc', L(2, 'F', 'fquad'), b)),                       # RightScalarMult
+             (('mulv', nq, v), ('mulv', f, v))]                                        # RightVectorMult
+    out = []
+    for x, y in pairs:
+        out += [('add', x, y), ('add', y, x), ('sub', x, y), ('mul', x, y), ('matmul', x, y), ('mul', y, x)]
+    P, Q = ('mul', L(2, 2), L(2, 2)), ('mul', f, L(2, 2))        # (2->2) * (2->F): ill-typed, both dispatch paths
+    out += [('mul', P, Q), ('matmul', P, Q), ('mul', ('cmul', L(2, 2, 'nonlin'), a), ('cmul', f, b)),
+            ('mul', ('mulc', L(2, 2, 'nonlin'), a), ('mulc', L(2, 'F', 'fquad'), b)),
+            ('mul', ('mulv', L(2, 2), v), ('mulv', f, v)), ('mul', ('add', L(2, 2), L(2, 2)), ('add', f, f))]
+    return out
+
+
 def _memory_trees(ctx):
     """Patterns that are only wrong when a leaf is not alias-safe in place, or returns (a view of) its
     input out of place: powers n = 3, 4 (nested compositions, evaluated in place), a sub-expression used
@@ -1447,6 +1478,11 @@ def probes(rng, tier):
             for t in _fixed_trees(ctx):
                 xs = [ctx.ivec(2, -2, 2) for _ in range(2)]
                 out.append(_tree_probe(ctx, t, xs, 'fixed interaction pattern vs reference interpreter'))
+    for cplx in (False, True):
+        ctx = Ctx(rng, cplx)
+        for t in _reflected_trees(ctx):
+            xs = [ctx.ivec(2, -2, 2) for _ in range(2)]
+            out.append(_tree_probe(ctx, t, xs, 'reflected-method-first pattern vs reference interpreter'))
     for cplx in (False, True):
         for kind in ('rn', 'discr', 'wrn'):
             ctx = Ctx(rng, cplx, kind)
